@@ -1996,13 +1996,19 @@ fn specialize(ctor: &Ctor, pattern: &[TypedPattern]) -> Vec<PatternStack> {
             | PatternEnum::StructIgnoreRemaining(struct_name_in_pattern, fields)
                 if struct_name == struct_name_in_pattern =>
             {
-                vec![
-                    fields
-                        .iter()
-                        .map(|(_, pattern)| pattern.clone())
-                        .chain(tail)
-                        .collect(),
-                ]
+                // one column per field of the struct definition (in its order): fields that
+                // the pattern does not mention (`..`) are wildcards
+                let mut specialized = Vec::with_capacity(field_types.len());
+                for (field_name, ty) in field_types {
+                    match fields.iter().find(|(name, _)| name == field_name) {
+                        Some((_, pattern)) => specialized.push(pattern.clone()),
+                        None => {
+                            let wildcard = PatternEnum::Identifier("_".to_string());
+                            specialized.push(Pattern::typed(wildcard, ty.clone(), *meta));
+                        }
+                    }
+                }
+                vec![specialized.into_iter().chain(tail).collect()]
             }
             _ => vec![],
         },
